@@ -35,9 +35,9 @@ FAMILIES = {
     "EDDM.drift_thresh": ("EDDM", "drift_thresh", [0.9, 0.8, 0.6, 0.4, 0.0]),
     "STEPD.alpha_drift": ("STEPD", "alpha_drift", [0.05, 0.01, 0.003, 0.0001, 0.0]),
     "LinearFourRates.detect_level": ("LinearFourRates", "detect_level", [0.2, 0.05, 0.02, 0.005]),
-    "KdqTreeStreaming.alpha": ("KdqTreeStreaming", "alpha", [0.5, 0.2, 0.05, 0.01, 0.0]),
-    "KdqTreeBatch.alpha": ("KdqTreeBatch", "alpha", [0.5, 0.2, 0.05, 0.01, 0.0]),
-    "NNDVI.alpha": ("NNDVI", "alpha", [0.4, 0.2, 0.05, 0.01, 0.0]),
+    "KdqTreeStreaming.alpha": ("KdqTreeStreaming", "alpha", [1.0, 0.5, 0.2, 0.05, 0.01, 0.0]),
+    "KdqTreeBatch.alpha": ("KdqTreeBatch", "alpha", [1.0, 0.5, 0.2, 0.05, 0.01, 0.0]),
+    "NNDVI.alpha": ("NNDVI", "alpha", [1.0, 0.4, 0.2, 0.05, 0.01, 0.0]),
     "HDDDM.tstat": ("HDDDM", "significance", [0.3, 0.1, 0.05, 0.01, 0.0]),
     "HDDDM.stdev": ("HDDDM", "significance", [0.0, 0.2, 0.5, 1.0, 2.0]),
     "CDBD.tstat": ("CDBD", "significance", [0.3, 0.1, 0.05, 0.01, 0.0]),
